@@ -217,6 +217,15 @@ impl<'a, N: Normalizer> XmlSerializer<'a, N> {
                         text: "".to_string(),
                     });
                 }
+                // a prefix bound to "no namespace" has no spelling in XML
+                // (`xmlns:p=""` is not allowed): no name is written with it, so
+                // nothing is lost by leaving it out
+                if *prefix_id != self.xot.empty_prefix() && *namespace_id == self.xot.no_namespace() {
+                    return Ok(OutputToken {
+                        space: false,
+                        text: "".to_string(),
+                    });
+                }
                 let namespace = self.xot.namespace_str(*namespace_id);
                 // the URI is written as an attribute value
                 // (a namespace name is an identifier, not text: it is escaped but never normalized)
